@@ -1,18 +1,26 @@
 #!/bin/sh
-# Build the framework from files on disk only (offline): all Coq theories,
-# property files and judges (full .vo), and the Rust harness against /repo.
+# Build the framework from files on disk only (offline): for every property
+# claimed in MANIFEST.json, its Coq theories, property file and judge (full
+# .vo) and its harness binaries against /repo.
 set -e
 cd "$(dirname "$0")"
 export CARGO_NET_OFFLINE=true
 python3 - <<'PY'
-import sys, os
+import sys, os, json
 sys.path.insert(0, os.path.join(os.getcwd(), "driver"))
-import core
-rc, out = core.coq_make([], timeout=7200)
+import core, props
+ready = [c["property_id"] for c in json.load(open("MANIFEST.json"))["checks"]]
+targets, bins = [], set()
+for p in ready:
+    cfg = props.PROPS[p]
+    targets += ["props/%s.vo" % p, "run/%s.vo" % cfg.get("run_module", "Run_" + p)]
+    subs = cfg["harness"] if isinstance(cfg["harness"], list) else [cfg["harness"]]
+    bins |= set(core.split_sub(s)[0] for s in subs)
+rc, out = core.coq_make(sorted(set(targets)), timeout=7200)
 print(out[-4000:])
 if rc != 0:
     sys.exit("coq build failed")
-rc, out = core.build_harness()
+rc, out = core.build_harness(sorted(bins))
 print(out[-2000:])
 if rc != 0:
     sys.exit("harness build failed")
